@@ -27,6 +27,8 @@ class StmtMixin:
         anchors = getattr(env, "anchors", None)
         if anchors and id(st) in anchors:
             for kind, label, payload in anchors[id(st)]:
+                if kind == "stop":
+                    continue
                 if kind == "ghost":
                     for locn, expr in payload.items():
                         val = self.spec_val(expr, env)
@@ -36,6 +38,8 @@ class StmtMixin:
                         t = self.spec_bool(cl, env)
                         self.ctx.oblige("%s:cut[%s].%d" % (env.fname, label, j), "assert", t, site=st.lineno, note=cl)
                         self.ctx.assume(t)
+            if any(kind == "stop" for kind, _l, _p in anchors[id(st)]):
+                raise PathEnd()  # prefix verification (contract key stop_at): the path ends here
         return m(st, env)
 
     def s_Pass(self, st, env):
@@ -704,21 +708,21 @@ def resolve_anchors(fnode, contract):
     stmts.sort(key=lambda n: (n.lineno, n.col_offset))
     out: dict[int, list] = {}
     missing = []
-    for kind, table in (("ghost", contract.ghost_at), ("cut", contract.cuts)):
+    for kind, table in (("ghost", contract.ghost_at), ("cut", contract.cuts), ("stop", {a: None for a in getattr(contract, "stop_at", [])})):
         for anchor, payload in table.items():
             text, _, nth = anchor.partition("#")
             nth = int(nth) if nth else 0
             if text == "return":
                 cands = [s for s in stmts if isinstance(s, ast.Return)]
             else:
-                try:
-                    norm = ast.unparse(ast.parse(text).body[0]) if text.strip() else ""
-                except SyntaxError:
-                    # header of a compound statement ("for x in y:", "if c:", "while c:")
+                if text.rstrip().endswith(":"):
+                    # header of a compound statement ("if c:", "while c:", "for x in y:"), matched like _head()
                     try:
-                        norm = _head(ast.parse(text + " pass").body[0])
+                        norm = _head(ast.parse(text.rstrip() + "\n    pass").body[0])
                     except SyntaxError:
                         norm = text.strip()
+                else:
+                    norm = ast.unparse(ast.parse(text).body[0]) if text.strip() else ""
                 cands = [s for s in stmts if _head(s) == norm]
             if nth >= len(cands):
                 missing.append(anchor)
